@@ -2,6 +2,7 @@ import PgBifrost.Proofs.ClientC03
 import PgBifrost.Model.ConnManager
 import PgBifrost.Gen.ClientSites
 import PgBifrost.Gen.ProgressSrc
+import PgBifrost.Gen.ConnSrc
 /-!
 # C03 — acknowledged position monotone and ledger-sourced; restarts never ahead
 
@@ -167,5 +168,16 @@ theorem handle_progress_as_in_source (s : State) (force : Bool) :
   simp [sendStatus, getConnRepl]
 
 end source
+
+/-- The connection manager as written (`getConn` with its reconnect test, the two public getters, `Close`),
+translated from the source on this run, is the model's `step`: START_REPLICATION is issued only on a NEW
+connection, on the configured slot, at EXACTLY the position passed in; a live connection is reused; `Close`
+forgets the connection. -/
+theorem conn_manager_as_in_source (c : PgBifrost.ConnManager.Conn) :
+    (∀ lsn, PgBifrost.Gen.ConnSrc.getRepl c lsn = PgBifrost.ConnManager.step c (.getRepl lsn)) ∧
+    PgBifrost.Gen.ConnSrc.getPlain c = PgBifrost.ConnManager.step c .getPlain ∧
+    PgBifrost.Gen.ConnSrc.close c = PgBifrost.ConnManager.step c .close := by
+  cases c <;> simp [PgBifrost.Gen.ConnSrc.getRepl, PgBifrost.Gen.ConnSrc.getPlain, PgBifrost.Gen.ConnSrc.getConn,
+    PgBifrost.Gen.ConnSrc.close, PgBifrost.ConnManager.step, Id.run, pure]
 
 end PgBifrost.Props.C03
